@@ -1953,9 +1953,124 @@ def correspond_op_fns(ctx, corr):
                                            what="operator function `%s`: %s" % (' '.join(toks), msg)))
 
 
+# method definitions outside their class: extracted method_impl_stmt (Parse/MethodImpl.v) vs parse_string
+
+def real_method_impl(text):
+    try:
+        d = parse_string(text)
+    except (impl.CxxParseError, AssertionError, RecursionError):
+        return ('err',)
+    ns = d.namespace
+    if len(ns.method_impls) != 1 or ns.functions or ns.variables or ns.typedefs or ns.classes or ns.using_alias or ns.enums or ns.forward_decls:
+        return ('other',)
+    o = ns.method_impls[0]
+    if o.operator or o.has_trailing_return or o.template or o.msvc_convention or o.raw_requires or o.constructor or o.destructor:
+        return ('other',)
+    segs = []
+    for sg in o.name.segments:
+        if not isinstance(sg, T.NameSpecifier) or sg.specialization or sg.name == '':
+            return ('other',)
+        segs.append(sg.name)
+    try:
+        ps = []
+        for p in o.parameters:
+            if p.default is not None or p.param_pack:
+                return ('other',)
+            ps.append((decl.from_real(p.type), p.name))
+        t = ('F', decl.from_real(o.return_type), tuple(ps), o.vararg)
+    except decl.Unrepresentable:
+        return ('other',)
+    val = lambda v: None if v is None else tuple(x.value for x in v.tokens)
+    return ('ok', (o.constexpr, o.extern, o.inline, o.static), tuple(segs), t,
+            (o.const, o.volatile, o.override, o.final, {None: 0, '&': 1, '&&': 2}[o.ref_qualifier], val(o.throw), val(o.noexcept),
+             o.pure_virtual, o.deleted, o.default, o.has_body))
+
+
+def correspond_method_impls(ctx, corr):
+    from harness.props import c03
+    rng = ctx.rng
+    cases = []
+    for _ in range(ctx.scale(700, 14000)):
+        pre = [rng.choice(['constexpr', 'inline', 'static', 'const']) for _ in range(rng.choice([0, 0, 1, 2]))]
+        ty = [rng.choice(['Foo', 'T', 'bool_t', 'Bar', 'void'])]
+        for _ in range(rng.choice([0, 0, 1, 2])):
+            ty += rng.choice([['*'], ['*', 'const'], ['&'], ['&&']])
+        ps = []
+        for j in range(rng.choice([0, 1, 1, 2])):
+            while True:
+                q = decl.rand_type(rng, rng.choice([0, 1, 2]))
+                if decl.var_ok(q):
+                    break
+            ps.append((q, rng.choice([None, 'a%d' % j])))
+        segs = [rng.choice(['Cls', 'ns', 'Outer', 'A']) for _ in range(rng.choice([1, 1, 2, 3]))] + [rng.choice(['m', 'get', 'f2'])]
+        qual = []
+        for i, sname in enumerate(segs):
+            if i:
+                qual.append('::')
+            qual.append(sname)
+        toks = pre + ty + qual + ['('] + decl.print_params(tuple(ps), False) + [')']
+        for _ in range(rng.choice([0, 1, 1, 2])):
+            toks += rng.choice(c03.MS_QUALS)
+        toks += list(rng.choice([['{', '}'], ['{', 'return', 'x', '[', '0', ']', ';', '}'], ['{', '}'], [';'], ['=', 'default', ';']]))
+        toks += rng.choice([[], ['int', 'z', ';']])
+        cases.append(toks)
+        if rng.random() < 0.3:
+            cases.append(c02.mutate(rng, toks) or [';'])
+    lines, nms = [], []
+    for toks in cases:
+        names = decl.Names()
+        lines.append([116] + decl.enc_tokens(toks, names))
+        nms.append(names)
+    for toks, o, names in zip(cases, run_driver(lines), nms):
+        corr.cases += 1
+        if o[0] == 0:
+            fl = [bool(x) for x in o[2:11]]
+            nseg = o[11]
+            segs = tuple(names.rev.get(x, '?') for x in o[12:12 + nseg])
+            i = 12 + nseg
+            ln = o[i]
+            t, _j = decl.dec_type(o, i + 1, names)
+            i = i + 1 + ln
+
+            def opt(i):
+                if o[i] == 0:
+                    return None, i + 1
+                cnt = o[i + 1]
+                vals = tuple(names.rev[o[i + 2 + 2 * q + 1]] if o[i + 2 + 2 * q + 1] else impl.TT[o[i + 2 + 2 * q]] for q in range(cnt))
+                return vals, i + 2 + 2 * cnt
+            q5 = (bool(o[i]), bool(o[i + 1]), bool(o[i + 2]), bool(o[i + 3]), o[i + 4])
+            i += 5
+            th, i = opt(i)
+            ne, i = opt(i)
+            q = q5 + (th, ne, bool(o[i]), bool(o[i + 1]), bool(o[i + 2]), bool(o[i + 3]))
+            m = ('ok', (fl[2], fl[3], fl[4], fl[5]), segs, t, q, o[1])
+        else:
+            m = ('err', o[1])
+        # the model stops behind the body; what follows is another statement
+        k_rest = m[5] if m[0] == 'ok' else None
+        text = ' '.join(toks[:len(toks) - k_rest]) if k_rest else ' '.join(toks)
+        r = real_method_impl(text)
+        k = "methodimpl:" + (m[0] if m[0] == 'ok' else 'err%d' % m[1]) + "/" + r[0]
+        corr.dist[k] = corr.dist.get(k, 0) + 1
+        msg = None
+        if m[0] == 'ok':
+            if r[0] == 'err':
+                msg = "model decodes the method definition but the implementation rejects it"
+            elif r[0] == 'ok' and tuple(r[1:]) != tuple(m[1:5]):
+                msg = "model %s; implementation %s" % (m[1:5], r[1:])
+        elif m[0] == 'err' and m[1] in (1, 2, 3) and r[0] == 'ok':
+            msg = "model rejects (code %d) but the implementation reports %s" % (m[1], r[1:])
+        elif m[0] == 'err' and m[1] == 9:
+            msg = "model ran out of fuel"
+        if msg:
+            corr.disagreements.append(dict(case=dict(kind='corr-methodimpl', tokens=toks), model=str(m)[:400], impl=str(r)[:400],
+                                           what="method definition `%s`: %s" % (text, msg)))
+
+
 def correspond(ctx):
     corr = Corr()
     rng = ctx.rng
+    correspond_method_impls(ctx, corr)
     correspond_op_fns(ctx, corr)
     correspond_typedef_stmts(ctx, corr)
     from harness import dispatchcorr
